@@ -276,6 +276,27 @@ fn pre_answer(p: &Preprocessor, src: &str) -> String {
     }
 }
 
+/// the same with ONE context and ONE output object that are cleared (the library's own `clear`) and
+/// reused: a cleared context must behave like a new one
+fn pre_answer_reused(p: &Preprocessor, ctx: &mut PreprocessorContext, out: &mut PreprocessorOutput, src: &str) -> String {
+    ctx.clear();
+    out.clear();
+    let r = catch_unwind(AssertUnwindSafe(|| match p.parse(ctx, out, src) {
+        Ok(_) => {
+            let mut labels: Vec<(String, usize)> = ctx.label_map.iter().map(|(k, v)| (k.clone(), v.map)).collect();
+            labels.sort();
+            let mut undef: Vec<(usize, String)> = ctx.undefined_labels.iter().cloned().collect();
+            undef.sort();
+            format!("Ok code={:?} data={:?} labels={:?} undef={:?}", out.code, out.data, labels, undef)
+        }
+        Err(e) => format!("Err {}", e),
+    }));
+    match r {
+        Ok(s) => s,
+        Err(e) => format!("PANIC {}", panic_msg(e)),
+    }
+}
+
 fn data_answer(p: &DataParser, line: &str) -> String {
     let r = catch_unwind(AssertUnwindSafe(|| {
         let mut vm = VM::new();
@@ -529,6 +550,59 @@ pub fn run(tier: &Tier) -> i32 {
             }
         });
     }
+    // Preprocessor with a reused, cleared context: histories that end in every kind of error, incl. the
+    // nesting limit and recursion, followed by programs that use the same macro names
+    {
+        let deep: String = {
+            let mut t = String::from("macro c0(a) -> inc a <-\n");
+            for k in 1..=130 {
+                t.push_str(&format!("macro c{}(a) -> c{}(a) <-\n", k, k - 1));
+            }
+            t.push_str("start:\nc130(ax)\n");
+            t
+        };
+        let alpha: Vec<String> = vec![
+            "start:\nmov ax, 5\n".into(),
+            "macro c0(a) -> inc a <-\nmacro c1(a) -> c0(a) <-\nstart:\nc1(ax)\nc0(bx)\n".into(),
+            deep.clone(),
+            "macro r(a) -> r(a) <-\nstart:\nr(ax)\n".into(),
+            "macro r(a) -> inc a <-\nstart:\nr(ax)\nr(bx)\n".into(),
+            "macro m(a) -> mov al, a <-\nstart:\nm(300)\n".into(),
+            "macro m(a) -> inc a <-\ndef f {\nm(ax)\n}\nstart:\ncall f\njmp fwd\nfwd:\n".into(),
+            "bv: db 5\nstart:\nmov al, byte bv\n".into(),
+            "db [70000]\n".into(),
+            "start:\nmov ax,, 5\n".into(),
+            "macro e(a) -> <-\nstart:\ne(ax)\ne(bx)\n".into(),
+            "macro c129(a) -> inc a <-\nmacro c130(a) -> c129(a) <-\nstart:\nc130(ax)\nc129(bx)\n".into(),
+        ];
+        let fresh: Vec<String> = alpha
+            .iter()
+            .map(|s| {
+                let mut ctx = PreprocessorContext::default();
+                let mut out = PreprocessorOutput::default();
+                pre_answer_reused(&Preprocessor::new(), &mut ctx, &mut out, s)
+            })
+            .collect();
+        // (the deep chain costs about a second per parse: histories of length 1 in quick, 2 in thorough)
+        let hs = histories(alpha.len(), hl - 1);
+        hs.par_iter().for_each(|h| {
+            let p = Preprocessor::new();
+            let mut ctx = PreprocessorContext::default();
+            let mut out = PreprocessorOutput::default();
+            for a in h {
+                let _ = pre_answer_reused(&p, &mut ctx, &mut out, &alpha[*a]);
+            }
+            for (pi, probe) in alpha.iter().enumerate() {
+                hist_n.fetch_add(1, Ordering::Relaxed);
+                let got = pre_answer_reused(&p, &mut ctx, &mut out, probe);
+                if got != fresh[pi] {
+                    rep.report(Viol { site: "parser history / Preprocessor with a cleared context".into(), field: "answer".into(), vars: vec![], got_val: None, expected: clip_text(&fresh[pi], 600), got: clip_text(&got, 600), case: json!({"history": h.iter().map(|a| clip_text(&alpha[*a], 300)).collect::<Vec<_>>(), "probe": clip_text(probe, 300)}), weight: h.len() as u64 });
+                    // later probes would only repeat the leak
+                    break;
+                }
+            }
+        });
+    }
     // DataParser
     {
         let alpha: Vec<&str> = vec!["db 5", "dw 4660", "db [3]", "dw [7 , 2]", "db \"hey\"", "dw \"ab\"", "set 32", "db 300", "dw", "garbage", "", "db [-1 , 3]"];
@@ -714,7 +788,7 @@ pub fn run(tier: &Tier) -> i32 {
     }
     let mut cov = Coverage::default();
     cov.exhaustive = true;
-    cov.rule = format!("(a) {} programs with 1-4 entries in the undefined-label set (every order of appearance of up to 4 undefined labels, forward jumps to defined labels in the same set, a label used twice, missing start, later range error, labels in procedures and macros) each run under ALL iteration orders of the set (hook VERIF_ORDER, k! orders) plus two runs in natural hash order: outputs must be byte-identical; {} further programs (the repository's examples, syntax errors, prompt session, divide error, input) rerun 5 times in separate processes (repetition, not enumeration). (b) VM::new() after every history of <= 2 instructions on another machine: all registers and all 2^20 bytes zero except FLAGS=F000h, CS=FFFFh. (c) explicit-state: all pairs of instruction streams of length <= {} over a {}-instruction alphabet (register, flag, memory, stack{} instructions) on two machines with different initial states sharing ONE Interpreter object, in ALL interleavings; each machine's final registers, call stack, return values and watched memory cells must equal the stream run alone on fresh objects (whole-memory audit on a subset). (d) every history of <= {} lines (12-14 line alphabets: valid, invalid, erroring, REP, call/ret, recursion error) through one Preprocessor / DataParser / Interpreter object followed by each probe line: answer and effect equal a fresh object's; print reader: histories of <= 2 commands in one prompt session of the real binary. Free-running 8-thread smoke run with private machines (not deciding). Static audit of iteration/static/clock sites listed under unowned_nondeterminism_candidates (a note, not a verdict)", progs.len(), reruns.len(), maxlen, env.alpha.len(), if tier.thorough { ", call/ret, REP, xchg, label operand" } else { "" }, hl);
+    cov.rule = format!("(a) {} programs with 1-4 entries in the undefined-label set (every order of appearance of up to 4 undefined labels, forward jumps to defined labels in the same set, a label used twice, missing start, later range error, labels in procedures and macros) each run under ALL iteration orders of the set (hook VERIF_ORDER, k! orders) plus two runs in natural hash order: outputs must be byte-identical; {} further programs (the repository's examples, syntax errors, prompt session, divide error, input) rerun 5 times in separate processes (repetition, not enumeration). (b) VM::new() after every history of <= 2 instructions on another machine: all registers and all 2^20 bytes zero except FLAGS=F000h, CS=FFFFh. (c) explicit-state: all pairs of instruction streams of length <= {} over a {}-instruction alphabet (register, flag, memory, stack{} instructions) on two machines with different initial states sharing ONE Interpreter object, in ALL interleavings; each machine's final registers, call stack, return values and watched memory cells must equal the stream run alone on fresh objects (whole-memory audit on a subset). (d) every history of <= {} lines (12-14 line alphabets: valid, invalid, erroring, REP, call/ret, recursion error) through one Preprocessor / DataParser / Interpreter object followed by each probe line: answer and effect equal a fresh object's; the same for one preprocessor CONTEXT that is cleared with the library's clear() and reused (histories ending in the nesting limit, recursion and range errors); print reader: histories of <= 2 commands in one prompt session of the real binary. Free-running 8-thread smoke run with private machines (not deciding). Static audit of iteration/static/clock sites listed under unowned_nondeterminism_candidates (a note, not a verdict)", progs.len(), reruns.len(), maxlen, env.alpha.len(), if tier.thorough { ", call/ret, REP, xchg, label operand" } else { "" }, hl);
     cov.bounds = json!({"order_programs": progs.len(), "order_runs": orders_run.load(Ordering::Relaxed), "distinct_first_lines_in_order_runs": distinct_msgs.lock().unwrap().len(), "rerun_programs": reruns.len(), "fresh_machine_checks": fresh_checks.load(Ordering::Relaxed), "streams": streams.len(), "stream_pairs": pairs_n.load(Ordering::Relaxed), "interleaved_runs": inter_n.load(Ordering::Relaxed), "whole_memory_audits": full_audits.load(Ordering::Relaxed), "parser_history_probes": hist_n.load(Ordering::Relaxed), "prompt_session_probes": prompt_hist.load(Ordering::Relaxed), "threads_joined": thread_runs, "tier": tier.name()});
     cov.extra.insert("unowned_nondeterminism_candidates".into(), json!(audit));
     cov.assumptions = common_assumptions();
